@@ -105,6 +105,8 @@ def ex_history(R):
             if big:
                 cmd = R.choice([b'%s/^/A/\n', b'g/./s/$/B/\n', b'1,140s/l/L/\n', b'%s/a/bb/\n', b'g/l/s/ / _/\n', b'2,$d\n', b'1,$!cat\n'])
             elif R.random() < 0.06:
+                cmd = b'%dr f3\n' % R.randint(0, max(n, 1))      # (f3 has no newline at its end)
+            elif R.random() < 0.06:
                 cmd = R.choice([b'e!\n', b'e!\n', b'e\n'])      # re-reading the file is a change like any other: one step, history kept
             if cmd.count(b'\n') == 1 and R.random() < 0.2:
                 # a command line that edits and then fails: still one command, hence one undo step
@@ -166,7 +168,7 @@ def run_history(args):
     R = rng('c04', mode, idx)
     if mode == 'ex':
         lines, steps, script = ex_history(R)
-        r, d = common.run_ex(vi, script, files={'f1': gen.buf_bytes(lines), 'f2': b'r1\nr2\n'}, timeout=60)
+        r, d = common.run_ex(vi, script, files={'f1': gen.buf_bytes(lines, idx % 5 != 0), 'f2': b'r1\nr2\n', 'f3': b'n1\nn2 no newline'}, timeout=60)
     else:
         lines, steps, script = vi_history(R)
         r, d = common.run_vi(vi, script, files={'f1': gen.buf_bytes(lines), 'f2': b'r1\nr2\n'}, timeout=60)
@@ -201,7 +203,7 @@ def run_history(args):
         return ('violation', bad[0], nchk, len(steps), wit)
     if mode == 'ex' and all(o is not None for o in obs):
         # second run without the dumps after modifying steps: the texts after every undo/redo must be the same
-        r2, d2 = common.run_ex(vi, sparse_script(script, steps), files={'f1': gen.buf_bytes(lines), 'f2': b'r1\nr2\n'}, timeout=60)
+        r2, d2 = common.run_ex(vi, sparse_script(script, steps), files={'f1': gen.buf_bytes(lines, idx % 5 != 0), 'f2': b'r1\nr2\n', 'f3': b'n1\nn2 no newline'}, timeout=60)
         obs2 = [common.readf(d2, 'd%d' % k) for k in range(len(steps))]
         common.rmcase(d2)
         if not (r2.timed_out or common.san_report(r2)):
